@@ -70,6 +70,9 @@ def _numeq(i):
 
 NAMINGS = {
     'numeq': _numeq,
+    # small ints of both signs: -1, 1, -2, 2, ... (a negative int is a legal LIST INDEX: code that uses
+    # an int state as a position does not fail on it, it silently reads another slot)
+    'zigzag': lambda i: (-(i // 2) - 1) if i % 2 == 0 else (i // 2 + 1),
     'int': lambda i: i,
     'str': lambda i: 's%d' % i,
     'revint': lambda i: 100 - i,
